@@ -21,3 +21,46 @@ Theorem C06_cancelled_run_not_marked : forall sc hc s id re s',
   sy_h s' = sy_h s /\ exists rest, sy_results s = (id, OCanceled) :: rest /\ sy_results s' = rest.
 Proof. exact cancelled_run_not_marked. Qed.
 Print Assumptions C06_cancelled_run_not_marked.
+
+(* ---- over all reachable states (Proofs/SysProofs.v) ---- *)
+From GK.Proofs Require Import SysProofs.
+
+(* a successful MarkAsDone of the result branch records exactly the outcome: done for nil; err with the error
+   text for an error, a panic, an unknown work id *)
+Theorem C06_mark_done_records : forall s id e hf s',
+  reachable s -> sy_pc s = PSelect ->
+  sstepf s (LCall (CMarkDone id e) FNone hf (RRes ROk)) = Some s' ->
+  exists o rest t', sy_results s = (id, o) :: rest /\ sy_results s' = rest /\ o <> OCanceled
+    /\ lookup id (repo_of s') = Some t' /\ outcome_recorded o t' = true
+    /\ (o = ONil -> t_state t' = Done)
+    /\ (forall x, o <> ONil -> outcome_err o = Some x -> t_state t' = Err /\ t_err t' = x)
+    /\ sy_pc s' = PEnd (STaskDone id o false) false.
+Proof. exact mark_done_records. Qed.
+Print Assumptions C06_mark_done_records.
+
+(* ... and the record never changes afterwards *)
+Theorem C06_record_is_final : forall s id e hf s1 tr s2,
+  reachable s -> sy_pc s = PSelect ->
+  sstepf s (LCall (CMarkDone id e) FNone hf (RRes ROk)) = Some s1 ->
+  srun s1 tr = Some s2 -> srun_ok s1 tr ->
+  exists o rest t', sy_results s = (id, o) :: rest /\ o <> OCanceled
+    /\ lookup id (repo_of s2) = Some t' /\ outcome_recorded o t' = true.
+Proof. exact mark_done_final. Qed.
+Print Assumptions C06_record_is_final.
+
+(* a run ended only by cancellation of the dispatcher: reported, left dispatched, never marked *)
+Theorem C06_cancelled_left_dispatched : forall s id s',
+  reachable s -> sy_pc s = PSelect ->
+  sstepf s (LStepEnd (STaskDone id OCanceled false) false) = Some s' ->
+  exists rest t, sy_results s = (id, OCanceled) :: rest /\ sy_results s' = rest /\ repo_of s' = repo_of s
+    /\ lookup id (repo_of s') = Some t /\ t_state t = Dispatched
+    /\ sy_reports s' = id :: sy_reports s /\ sy_pc s' = PIdle.
+Proof. exact canceled_reported. Qed.
+Print Assumptions C06_cancelled_left_dispatched.
+
+(* exactly once: a reported run is never queued, accepted or running again *)
+Theorem C06_reported_once : forall tr s s' id,
+  SysInv s -> srun s tr = Some s' -> srun_ok s tr -> In id (ended s) ->
+  In id (ended s') /\ ~ In id (res_ids s') /\ ~ In id (acc_ids s') /\ ~ In id (sy_running s').
+Proof. exact reported_once. Qed.
+Print Assumptions C06_reported_once.
